@@ -142,7 +142,25 @@ impl PlFold for Flattener {
                             ..pipeline
                         });
                     }
-                    kind => (self.fold_expr(*t.input)?, fold_transform_kind(self, kind)?),
+                    kind => {
+                        let input = self.fold_expr(*t.input)?;
+
+                        // A relation that is joined or appended is a pipeline of its own: it
+                        // must neither see the sort of the outer pipeline, nor leak its own
+                        // sort into the transforms that follow the join/append.
+                        let kind = if matches!(
+                            kind,
+                            TransformKind::Join { .. } | TransformKind::Append(_)
+                        ) {
+                            let outer_sort = std::mem::take(&mut self.sort);
+                            let kind = fold_transform_kind(self, kind);
+                            self.sort = outer_sort;
+                            kind?
+                        } else {
+                            fold_transform_kind(self, kind)?
+                        };
+                        (input, kind)
+                    }
                 };
 
                 // In case we're appending or joining another pipeline, we do not want to apply the
